@@ -115,7 +115,10 @@ pub(crate) fn run(seed: u64, n: u64, out: &mut Out) {
                     let mut what: &'static str = if !expect_ok { "spends-evicted-parent" } else if parent_pending { "valid-spends-pending" } else { "valid" };
                     if expect_ok && rng.chance(1, 2) {
                         expect_ok = false;
-                        match rng.below(13) {
+                        match rng.below(15) {
+                            // a relative lock (1 block after the input's own commitment) on an output of a transaction that is still pending:
+                            // the parent is in no block, so the lock cannot have matured
+                            13 | 14 if parent_pending => { what = "relative-since-on-pending-parent"; inputs[0].2 = 0x8000_0000_0000_0000u64 + rng.range(1, 3); }
                             // shaped like a cellbase: a single input with the null out point (all-zero hash, index 0xffffffff) - nothing a
                             // user may submit: it names no cell the client knows and would mint its outputs from nothing
                             11 | 12 => { what = "cellbase-shaped-null-input"; inputs = vec![(packed::Byte32::zero(), u32::MAX, 0)]; if what == "cellbase-shaped-null-input" && rng.chance(1, 2) { outputs = vec![out_cell(1_000_000 * 1_0000_0000)]; } }
